@@ -24,7 +24,7 @@ from gens.jose import ALL_JWS
 from ref import jws as rjws, jwe as rjwe, b64 as rb, keys as rk, selftest
 
 LEVEL = "exploration"
-RULE = ("(a) operations from a pool of 65 (sign/verify HS256 with two different keys, ES256, EdDSA, RS256 compact and JSON, key-set signing "
+RULE = ("(a) operations from a pool of 66 (sign/verify HS256 with two different keys, ES256, EdDSA, RS256 compact and JSON, key-set signing "
         "with random pick, A128KW / ECDH-ES / dir encrypt and decrypt, jwt encode/decode, thumbprint, ensure_kid, KeySet([...]), "
         "KeySet.as_dict, public export, PEM export, per-call allow-lists, caller registries, PBES2 with the right / a wrong password, CBC-HS / ChaCha20 / GCMKW / ECDH-1PU messages, compressed (DEF) messages with two different plaintexts, keys carrying use / key_ops) run pairwise in two threads over shared Key / KeySet / registry objects rebuilt from "
         "stored material for every schedule (lazy initialisation is raced every time); the tracer switches threads only at the "
@@ -215,6 +215,19 @@ def _ref_decrypt(tok, keyname, sender=None):
         r = rjwe.decrypt_compact(tok, lambda h: m["ref"][keyname], rk.public_of(m["ref"][sender]) if sender else None)
         return ["valid", r["plaintext"].decode(), tok.split(".")[2]]
     except rjwe.Reject as e:
+        if "incomplete deflate stream" in str(e):
+            # a compressed payload without a final block (the wire-format checks deal with that): the comparison with isolation still
+            # needs to see WHAT the token holds, so the stream is inflated as far as it goes
+            import zlib
+            strict_inflate = rjwe.inflate
+            rjwe.inflate = lambda data, limit=None, allow_zlib_header=False: zlib.decompressobj(-15).decompress(data)
+            try:
+                r = rjwe.decrypt_compact(tok, lambda h: m["ref"][keyname], rk.public_of(m["ref"][sender]) if sender else None)
+                return ["valid-but-unterminated-stream", r["plaintext"].decode("utf-8", "replace"), tok.split(".")[2]]
+            except rjwe.Reject as e2:
+                return [f"invalid({e2})", "", ""]
+            finally:
+                rjwe.inflate = strict_inflate
         return [f"invalid({e})", "", ""]
 
 
@@ -551,6 +564,11 @@ def op_encrypt_kw_zip(G):
     return _ref_decrypt(jwe.encrypt_compact({"alg": "A128KW", "enc": "A128GCM", "zip": "DEF"}, ZIP_TEXT_A, G.oct16), "oct16")[:2]
 
 
+def op_encrypt_kw_zip_b(G):
+    from joserfc import jwe
+    return _ref_decrypt(jwe.encrypt_compact({"alg": "A128KW", "enc": "A128GCM", "zip": "DEF"}, ZIP_TEXT_B, G.oct16), "oct16")[:2]
+
+
 def op_decrypt_kw_zip(G):
     from joserfc import jwe
     return jwe.decrypt_compact(material()["tok"]["kw_zip"], G.oct16).plaintext.decode()
@@ -580,7 +598,7 @@ def op_pp_sign_b(G):
 
 OPS = {f.__name__[3:]: f for f in [
     op_pp_kid_a, op_pp_kid_b, op_pp_sign_b,
-    op_encrypt_kw_zip, op_decrypt_kw_zip, op_decrypt_kw_zip_b,
+    op_encrypt_kw_zip, op_encrypt_kw_zip_b, op_decrypt_kw_zip, op_decrypt_kw_zip_b,
     op_encrypt_kw_foreign_header, op_decrypt_pbes2_default_registry, op_sigkey_first_use_sign, op_sigkey_encrypt_refused, op_sigkey_keyset, op_sigkey_export,
     op_read_kid, op_custom_registry_sign, op_sign_unregistered_header, op_custom_jwe_registry, op_encrypt_unregistered_header,
     op_sign_hs_k1, op_sign_hs_k2, op_verify_hs_k1, op_verify_hs_wrongkey, op_verify_hs_k2, op_sign_es, op_verify_es, op_verify_es_private_obj, op_sign_ed,
@@ -610,7 +628,7 @@ TOUCH = {"sigkey_first_use_sign": {"ec_sig"}, "sigkey_encrypt_refused": {"ec_sig
          "encrypt_1pu_kw": {"ECDH-1PU+A128KW", "A128CBC-HS256"}, "decrypt_1pu_kw": {"ECDH-1PU+A128KW", "A128CBC-HS256"},
          "decrypt_1pu_kw_b": {"ECDH-1PU+A128KW", "A128CBC-HS256"},
          "pp_kid_a": {"pp"}, "pp_kid_b": {"pp"}, "pp_sign_b": {"pp"},
-         "encrypt_kw_zip": {"DEF"}, "decrypt_kw_zip": {"DEF"}, "decrypt_kw_zip_b": {"DEF"}}
+         "encrypt_kw_zip": {"DEF"}, "encrypt_kw_zip_b": {"DEF"}, "decrypt_kw_zip": {"DEF"}, "decrypt_kw_zip_b": {"DEF"}}
 CORE = ["sign_hs_k1", "sign_hs_k2", "verify_hs_k1", "verify_hs_wrongkey", "sign_es", "verify_es_private_obj", "keyset_new", "keyset_sign_pick",
         "keyset_verify_kid", "thumbprint", "ensure_kid", "export_public", "encrypt_kw", "decrypt_kw", "encrypt_ecdh", "jwt_roundtrip", "shared_keyset_sign",
         "verify_disallowed", "verify_ed_allowed", "read_kid", "custom_registry_sign", "sign_unregistered_header",
@@ -618,7 +636,7 @@ CORE = ["sign_hs_k1", "sign_hs_k2", "verify_hs_k1", "verify_hs_wrongkey", "sign_
         "verify_hs256_list", "verify_hs512_under_hs256_list", "verify_hs512_list", "decrypt_pbes2_right", "decrypt_pbes2_wrong",
         "verify_hs_registry_and_list", "verify_es_registry", "encrypt_kw_cbc", "decrypt_kw_cbc", "decrypt_kw_b", "decrypt_kw_cbc_b",
         "decrypt_kw_c20p", "decrypt_kw_c20p_b", "encrypt_gcmkw", "encrypt_1pu_kw", "decrypt_1pu_kw", "decrypt_1pu_kw_b",
-        "encrypt_kw_zip", "decrypt_kw_zip", "decrypt_kw_zip_b", "pp_kid_a", "pp_kid_b", "pp_sign_b"]
+        "encrypt_kw_zip", "encrypt_kw_zip_b", "decrypt_kw_zip", "decrypt_kw_zip_b", "pp_kid_a", "pp_kid_b", "pp_sign_b"]
 
 
 def outcome(fn, G):
@@ -899,6 +917,9 @@ def run_shard(ctx, spec):
     if spec["part"] == "sched":
         pairs = [(a, b) for a in names for b in names]
         mine = [p for j, p in enumerate(pairs) if j % spec["n"] == spec["i"]]
+        # pairs that share a lazily initialised or long-lived object first: should the time budget run out, it is the sparse
+        # schedules of unrelated pairs that are left over
+        mine.sort(key=lambda p: not (TOUCH.get(p[0], set()) & TOUCH.get(p[1], set())))
         lens = {}
 
         def body(offset):
